@@ -54,10 +54,40 @@ def mutants():
     return "\n".join(rows)
 
 
+def asbuilt():
+    import importlib, sys
+
+    sys.path.insert(0, str(ROOT))
+    sys.path.insert(0, "/repo")
+    rows = ["| property | sub-checks (quick cases; E = enumerated, M = state machine, F = + coverage-guided campaign in the thorough tier) | quick total | thorough total |", "|---|---|---|---|"]
+    for i in range(1, 21):
+        pid = f"C{i:02d}"
+        try:
+            mod = importlib.import_module(f"tqv.props.{pid.lower()}")
+        except Exception as e:  # noqa: BLE001
+            rows.append(f"| {pid} | (module failed to import: {e}) | | |")
+            continue
+        parts, q, t = [], 0, 0
+        for sc in mod.SUBCHECKS:
+            if sc.cases is not None:
+                nq, nt = len(sc.cases("quick")), len(sc.cases("thorough"))
+                tag = "E"
+            else:
+                nq, nt = sc.quick, sc.thorough
+                tag = "M" if sc.machine is not None else ""
+            if sc.fuzz:
+                tag += "F"
+            q += nq
+            t += nt
+            parts.append(f"{sc.name} ({nq}{tag})")
+        rows.append(f"| {pid} | {', '.join(parts)} | {q} | {t} |")
+    return "\n".join(rows)
+
+
 def main():
     p = ROOT / "DESIGN.md"
     s = p.read_text()
-    for name, fn in (("findings", findings), ("seeded", seeded), ("mutants", mutants)):
+    for name, fn in (("findings", findings), ("seeded", seeded), ("mutants", mutants), ("asbuilt", asbuilt)):
         pat = re.compile(rf"(<!-- BEGIN:{name} -->\n).*?(<!-- END:{name} -->)", re.S)
         if not pat.search(s):
             print("marker missing:", name)
